@@ -3,22 +3,39 @@ import Glom.Model.C18Slice
   C18 — code-shaped model of `repr` / `eval(repr)` / pickling of T expressions and
   Paths, and of Path as a sequence of steps.
 
-  Mirrors glom/core.py:
+  Mirrors glom/core.py (and the part of the standard library it prints with):
     * `_format_t`, `_format_slice`, `format_invocation`, `_format_path`,
-      `TType.__repr__`, `Path.__repr__`                          → `fmtT`, `fmtItem`, `fmtCall`, `fmtPath`, `reprObj`
+      `TType.__repr__`, `Path.__repr__`                          → `fmtArg`, `fmtItem`, `fmtStep`, `fmtT`, `fmtPath`, `reprObj`
       producing *token trees*: the text after Python's tokenizer matched the
-      brackets.  A literal argument is one atomic token `lit v` (its `bbrepr`
-      text; that `eval` gives `v` back is CPython's, trusted); a nested T
-      argument is spelled out by the same formatter (`bbrepr(t)` is `repr(t)`).
-      The three places repaired by commit 0224102 and the root handling of
-      `_format_path` (commit 2a7aadd) are switched by the extracted flags `FmtFacts`
-      so that the model is the code that exists either way.
-    * `eval(repr(x))` in a namespace with T, S, A, Path                 → `parseObj`
+      brackets.  A scalar argument (int, str, bytes, float, None, True, False,
+      Ellipsis, a builtin function / class) is one atomic token `lit v`; that
+      Python's lexer reads the text of such a token back as the value is
+      CPython's, trusted.  Everything above the scalars is modelled: tuples
+      (1-tuple comma, `()`), lists, sets (`set()`), frozensets (`frozenset()`,
+      `frozenset({…})`), dicts, slice objects (`slice(a, b, c)`), nested T / S / A
+      expressions and nested Path objects at any depth, in every argument
+      position.  The three places repaired by commit 0224102 and the root
+      handling of `_format_path` (commit 2a7aadd) are switched by the extracted
+      flags `FmtFacts` so that the model is the code that exists either way.
+    * `bbrepr` = `reprlib.Repr.repr` of the `_BBRepr` instance with the limits it
+      was given (`Limits`, extracted from the live instance on every run)   → `truncArg`, `truncItem`, `truncStep`
+      `repr1` / `_repr_iterable` / `repr_dict` / `repr_int` / `repr_str` /
+      `repr_instance`: a container deeper than `maxlevel` is printed `[...]`, one
+      longer than its limit loses the elements after the limit and gets a
+      `...`, a scalar longer than `maxlong` / `maxstring` / `maxother` and an
+      instance (nested T, Path, slice object) whose text is longer than
+      `maxother` are cut in the middle.  Modelled as a pass over the arguments
+      (what is lost) followed by the formatter; `'P'` segments of a Path and the
+      parts of a slice object are printed with the builtin `repr` (no limits, and
+      builtin functions by their `<built-in function …>` text).
+    * `eval(repr(x))` in a namespace with T, S, A, Path and the builtins    → `parseArg` … `parseObj`
       a parser for exactly that expression grammar: `.name`, `.__('name')`,
       `.__star__()`, `[index]` (scalar / slice / tuple of those, Python's
       trailing-comma and `()` rules), `(args, k=v)` (positional before keyword,
-      no repeated keyword), `Path(part, …)`; `T.__name` is rejected like
-      `TType.__getattr__` rejects it.
+      no repeated keyword), displays `(…)` `[…]` `{…}` `{k: v}`, `set()`,
+      `frozenset(…)`, `slice(a, b, c)`, `Path(part, …)`; `T.__name` is rejected
+      like `TType.__getattr__` rejects it; the `...` / cut texts reprlib leaves
+      are not read back as the value.
     * `TType.__getstate__` / `__setstate__`                             → `getstate`, `setstate`
     * `Path.__init__` (flattening of Path / T parts, `'P'` for everything
       else, the first part — a T or, since commit 9a9d3e1, a Path — may carry any
@@ -44,11 +61,26 @@ def isDunder (n : Name) : Bool := dunder.isPrefixOf n
 
 /-! ### expressions -/
 
+/-- the container types `reprlib` has a method for -/
+inductive Kind where
+  | tuple | list | set | frozenset | dict
+  deriving DecidableEq, Repr
+
 mutual
-  /-- an argument: a literal (atomic), or a nested T expression -/
+  /-- an argument -/
   inductive Arg (L : Type) where
-    | lit (v : L)
-    | t (root : String) (steps : List (Step L))
+    | lit (v : L)                                          -- a scalar (atomic)
+    | t (root : String) (steps : List (Step L))            -- a nested T expression
+    | seq (k : Kind) (xs : List (Arg L))                   -- tuple / list / set / frozenset (sets in printed order)
+    | dict (kvs : List (Arg L × Arg L))                    -- dict, in printed (key) order
+    | sliceObj (a b c : Arg L)                             -- a slice object that is not an index
+    | path (root : String) (steps : List (Step L))         -- a nested Path object
+    -- what `reprlib` leaves when a limit is exceeded (never part of a value)
+    | bad (text : String)                                  -- a scalar cut in the middle / not an expression (`inf`)
+    | fill                                                 -- `...` in place of the elements after the limit
+    | deep (k : Kind)                                      -- a non-empty container below `maxlevel`: `[...]`
+    | dictMore (kvs : List (Arg L × Arg L))                -- the first `maxdict` entries, then `...`
+    | cut (a : Arg L)                                      -- an instance repr longer than `maxother`, cut in the middle
   /-- one element of an index: a value, or `slice(a, b, c)` (`none` is `None`) -/
   inductive Item (L : Type) where
     | one (a : Arg L)
@@ -59,7 +91,7 @@ mutual
     | item (i : Item L)                                    -- ('[', x)   x not a tuple
     | items (is : List (Item L))                           -- ('[', (x, …))   type(arg) is tuple
     | call (args : List (Arg L)) (kwargs : List (String × Arg L))   -- ('(', (args, kwargs))
-    | seg (v : L)                                          -- ('P', v)   a plain Path segment
+    | seg (a : Arg L)                                      -- ('P', v)   a plain Path segment
     | star                                                 -- ('x', None)
     | starstar                                             -- ('X', None)
 end
@@ -79,15 +111,19 @@ def Obj.steps {L} : Obj L → List (Step L)
 
 inductive Tok (L : Type) where
   | root (r : String)            -- `T` / `S` / `A`
-  | name (n : String)            -- another name (`Path`)
+  | name (n : String)            -- another name (`Path`, `set`, `frozenset`, `slice`)
   | dot (n : Name)               -- `.n`
   | lit (v : L)                  -- an atomic literal
   | str (s : Name)               -- the string literal inside `.__('…')`
   | kw (k : String)              -- `k=`
   | comma
   | colon
-  | br (children : List (Tok L))   -- `[ … ]`
-  | par (children : List (Tok L))  -- `( … )`
+  | br (children : List (Tok L))     -- `[ … ]`
+  | par (children : List (Tok L))    -- `( … )`
+  | brace (children : List (Tok L))  -- `{ … }`
+  | fill                             -- reprlib's `...`
+  | bad (text : String)              -- a cut scalar / a name that is not bound (`inf`, `nan`)
+  | cut (children : List (Tok L))    -- a text cut in the middle
 
 /-- the switches of `_format_t` extracted from the source (all `true` after commit 0224102) -/
 structure FmtFacts where
@@ -188,11 +224,34 @@ def assembleT {L} (aware : Bool) (root : String) (xs : List (Step L × List (Tok
   if xs.any (fun x => x.1.isSeg) then assemblePath aware root xs
   else Tok.root root :: xs.flatMap (fun x => x.2)
 
+/-- the brackets `reprlib` puts around the `', '`-joined elements of a container of `n` elements:
+    `repr_tuple` (trailing comma for one element), `repr_list`, `repr_set` (`set()`),
+    `repr_frozenset` (`frozenset()`, `frozenset({…})`) -/
+def wrapSeq {L} (k : Kind) (n : Nat) (body : List (Tok L)) : List (Tok L) :=
+  match k with
+  | .tuple => [.par (body ++ (if n == 1 then [Tok.comma] else []))]
+  | .list => [.br body]
+  | .frozenset => if n == 0 then [.name "frozenset", .par []] else [.name "frozenset", .par [.brace body]]
+  | .set | .dict => if n == 0 then [.name "set", .par []] else [.brace body]
+
 mutual
-  /-- `bbrepr(arg)` -/
+  /-- `bbrepr(arg)` when no limit of `reprlib` is exceeded (`truncArg` below says what is lost
+      otherwise), and the builtin `repr(arg)` -/
   def fmtArg {L} (F : FmtFacts) : Arg L → List (Tok L)
     | .lit v => [.lit v]
     | .t root steps => assembleT F.pathRootAware root (steps.map (fun s => (s, fmtStep F s)))
+    | .seq k xs => wrapSeq k xs.length (joinSep .comma (xs.map (fun x => fmtArg F x)))
+    | .dict kvs =>
+      [.brace (joinSep .comma (kvs.map (fun p => fmtArg F p.1 ++ Tok.colon :: fmtArg F p.2)))]
+    | .sliceObj a b c => [.name "slice", .par (joinSep .comma [fmtArg F a, fmtArg F b, fmtArg F c])]
+    | .path root steps => assemblePath F.pathRootAware root (steps.map (fun s => (s, fmtStep F s)))
+    | .bad s => [.bad s]
+    | .fill => [.fill]
+    | .deep k => wrapSeq k 2 [.fill]
+    | .dictMore kvs =>
+      [.brace (joinSep .comma
+        (kvs.map (fun p => fmtArg F p.1 ++ Tok.colon :: fmtArg F p.2) ++ [[Tok.fill]]))]
+    | .cut a => [.cut (fmtArg F a)]
   termination_by a => sizeOf a
   decreasing_by all_goals c18_dec
   /-- `_format_slice(x)` -/
@@ -219,7 +278,7 @@ mutual
       -- format_invocation: ', '.join(args) then ', '.join('k=v' for k in sorted(kwargs))
       [.par (joinSep .comma ((args.map (fun a => fmtArg F a)) ++
           (sortKw (kwargs.map (fun p => (p.1, fmtArg F p.2)))).map (fun p => Tok.kw p.1 :: p.2)))]
-    | .seg v => [.lit v]
+    | .seg a => fmtArg F a
     | .star => [.dot starName, .par []]
     | .starstar => [.dot starstarName, .par []]
   termination_by s => sizeOf s
@@ -240,6 +299,199 @@ def fmtPath {L} (F : FmtFacts) (root : String) (steps : List (Step L)) : List (T
 def reprObj {L} (F : FmtFacts) : Obj L → List (Tok L)
   | .tobj root steps => fmtT F root steps
   | .pobj root steps => fmtPath F root steps
+
+/-! ### the text, and `reprlib`'s limits -/
+
+/-- the size limits of a `reprlib.Repr` instance that the literal kinds of the model go through -/
+structure Limits where
+  maxlevel : Nat
+  maxtuple : Nat
+  maxlist : Nat
+  maxdict : Nat
+  maxset : Nat
+  maxfrozenset : Nat
+  maxstring : Nat
+  maxlong : Nat
+  maxother : Nat
+  deriving DecidableEq, Repr
+
+/-- the `maxiter` argument of `_repr_iterable` / `repr_dict` -/
+def Limits.maxOf (lim : Limits) : Kind → Nat
+  | .tuple => lim.maxtuple
+  | .list => lim.maxlist
+  | .set => lim.maxset
+  | .frozenset => lim.maxfrozenset
+  | .dict => lim.maxdict
+
+/-- every limit equal to `n` -/
+def Limits.uniform (n : Nat) : Limits := ⟨n, n, n, n, n, n, n, n, n⟩
+
+/-- what the model needs to know about scalars (ints, strings, bytes, floats, None, …) -/
+structure ScalarOps (L : Type) where
+  text : L → String               -- `repr(v)`; for a builtin function / class the name `bbrepr` maps it to
+  fits : Limits → L → Bool        -- `repr_int` / `repr_str` / `repr_instance` print that text in full
+  cutText : Limits → L → String   -- what they print otherwise
+  evaluable : L → Bool            -- the text is a Python expression for the value (false: `inf`, `nan`)
+  plain : L → Bool                -- the builtin `repr` gives the same text (false: builtin functions / classes)
+  plainText : L → String          -- the builtin `repr`
+
+/-- the cut `reprlib` makes in a text longer than `max`: `s[:i] + '...' + s[len(s)-j:]` with
+    `i = max(0, (max-3)//2)`, `j = max(0, max-3-i)` -/
+def cutStr (max : Nat) (s : String) : String :=
+  if s.length > max then
+    let i := (max - 3) / 2
+    let j := max - 3 - i
+    String.ofList (s.toList.take i) ++ "..." ++ String.ofList (s.toList.drop (s.length - j))
+  else s
+
+mutual
+  def renderTok {L} (txt : L → String) (maxother : Nat) : Tok L → String
+    | .root r => r
+    | .name n => n
+    | .dot n => "." ++ String.ofList n
+    | .lit v => txt v
+    | .str s => "'" ++ String.ofList s ++ "'"      -- attribute names are identifiers: no escapes
+    | .kw k => k ++ "="
+    | .comma => ", "
+    | .colon => ":"
+    | .br ch => "[" ++ renderToks txt maxother ch ++ "]"
+    | .par ch => "(" ++ renderToks txt maxother ch ++ ")"
+    | .brace ch => "{" ++ renderBrace txt maxother ch ++ "}"
+    | .fill => "..."
+    | .bad s => s
+    | .cut ch => cutStr maxother (renderToks txt maxother ch)
+  termination_by t => sizeOf t
+  decreasing_by all_goals c18_dec
+  /-- a trailing comma is printed without the space (`index += ','`, `(x,)`) -/
+  def renderToks {L} (txt : L → String) (maxother : Nat) : List (Tok L) → String
+    | [] => ""
+    | [.comma] => ","
+    | t :: r => renderTok txt maxother t ++ renderToks txt maxother r
+  termination_by ts => sizeOf ts
+  decreasing_by all_goals c18_dec
+  /-- directly inside `{ … }` the colon of an entry is followed by a space -/
+  def renderBrace {L} (txt : L → String) (maxother : Nat) : List (Tok L) → String
+    | [] => ""
+    | .colon :: r => ": " ++ renderBrace txt maxother r
+    | t :: r => renderTok txt maxother t ++ renderBrace txt maxother r
+  termination_by ts => sizeOf ts
+  decreasing_by all_goals c18_dec
+end
+
+/-- `repr_instance` on an object whose builtin repr is the token list of `a`:
+    `if len(s) > self.maxother` it is cut in the middle -/
+def cutInst {L} (S : ScalarOps L) (F : FmtFacts) (lim : Limits) (plain : Bool) (a : Arg L) : Arg L :=
+  if plain || (renderToks S.text lim.maxother (fmtArg F a)).length ≤ lim.maxother then a else .cut a
+
+/-- `repr_int` / `repr_str` / `repr_instance` (bbrepr), or the builtin `repr`, of a scalar -/
+def truncLit {L} (S : ScalarOps L) (lim : Limits) (plain : Bool) (v : L) : Arg L :=
+  if plain then (if S.plain v && S.evaluable v then .lit v else .bad (S.plainText v))
+  else if S.fits lim v then (if S.evaluable v then .lit v else .bad (S.text v))
+  else .bad (S.cutText lim v)
+
+mutual
+  /-- what `repr1(arg, level)` of the `_BBRepr` instance (`plain = false`) or the builtin `repr`
+      (`plain = true`: no limits) keeps of an argument -/
+  def truncArg {L} (S : ScalarOps L) (F : FmtFacts) (lim : Limits) (plain : Bool) (level : Nat) :
+      Arg L → Arg L
+    | .lit v => truncLit S lim plain v
+    -- repr_instance → TType.__repr__ → _format_t, whose arguments go through bbrepr afresh
+    | .t root steps => cutInst S F lim plain (.t root (steps.map (fun s => truncStep S F lim s)))
+    | .path root steps => cutInst S F lim plain (.path root (steps.map (fun s => truncStep S F lim s)))
+    | .seq k xs =>
+      if plain then .seq k (xs.map (fun x => truncArg S F lim true level x))
+      else if level == 0 && !xs.isEmpty then .deep k          -- `if level <= 0 and n: s = self.fillvalue`
+      else
+        let ys := (xs.map (fun x => truncArg S F lim false (level - 1) x)).take (lim.maxOf k)
+        .seq k (if xs.length > lim.maxOf k then ys ++ [.fill] else ys)
+    | .dict kvs =>
+      if plain then .dict (kvs.map (fun p => (truncArg S F lim true level p.1, truncArg S F lim true level p.2)))
+      else if kvs.isEmpty then .dict []                        -- `if n == 0: return '{}'`
+      else if level == 0 then .deep .dict                      -- `if level <= 0: return '{' + self.fillvalue + '}'`
+      else
+        let ys := (kvs.map (fun p => (truncArg S F lim false (level - 1) p.1,
+                                      truncArg S F lim false (level - 1) p.2))).take lim.maxdict
+        if kvs.length > lim.maxdict then .dictMore ys else .dict ys
+    -- repr_instance → slice.__repr__: the parts by the builtin repr
+    | .sliceObj a b c =>
+      cutInst S F lim plain (.sliceObj (truncArg S F lim true level a) (truncArg S F lim true level b)
+        (truncArg S F lim true level c))
+    | .bad s => .bad s
+    | .fill => .fill
+    | .deep k => .deep k
+    | .dictMore kvs => .dictMore kvs
+    | .cut a => .cut a
+  termination_by a => sizeOf a
+  decreasing_by all_goals c18_dec
+  def truncItem {L} (S : ScalarOps L) (F : FmtFacts) (lim : Limits) : Item L → Item L
+    | .one a => .one (truncArg S F lim false lim.maxlevel a)
+    | .slice a b c =>
+      .slice (match a with | none => none | some x => some (truncArg S F lim false lim.maxlevel x))
+             (match b with | none => none | some x => some (truncArg S F lim false lim.maxlevel x))
+             (match c with | none => none | some x => some (truncArg S F lim false lim.maxlevel x))
+  termination_by i => sizeOf i
+  decreasing_by all_goals c18_dec
+  /-- every argument of a step is printed by `bbrepr(arg)` = `repr1(arg, maxlevel)`; the `'P'`
+      segments of a Path by the builtin `repr(part)` -/
+  def truncStep {L} (S : ScalarOps L) (F : FmtFacts) (lim : Limits) : Step L → Step L
+    | .attr n => .attr n
+    | .item i => .item (truncItem S F lim i)
+    | .items is => .items (is.map (fun i => truncItem S F lim i))
+    | .call args kwargs =>
+      .call (args.map (fun a => truncArg S F lim false lim.maxlevel a))
+            (kwargs.map (fun p => (p.1, truncArg S F lim false lim.maxlevel p.2)))
+    | .seg a => .seg (truncArg S F lim true 0 a)
+    | .star => .star
+    | .starstar => .starstar
+  termination_by s => sizeOf s
+  decreasing_by all_goals c18_dec
+end
+
+/-- `repr(x)` as glom computes it with the limits its `_BBRepr` instance has -/
+def reprLim {L} (S : ScalarOps L) (F : FmtFacts) (lim : Limits) : Obj L → List (Tok L)
+  | .tobj root steps => fmtT F root (steps.map (truncStep S F lim))
+  | .pobj root steps => fmtPath F root (steps.map (truncStep S F lim))
+
+/-! ### `Path.__init__` -/
+
+/-- a positional argument of `Path(…)` -/
+inductive Part (L : Type) where
+  | plain (a : Arg L)                              -- anything else: one `'P'` step
+  | texpr (root : String) (steps : List (Step L))  -- a TType
+  | path (root : String) (steps : List (Step L))   -- a Path: its path_t is used
+
+/-- `_t_child(parent, op, arg)`: `none` is the BadSpec for a call / wildcard on an `A` path -/
+def tChild {L} (root : String) (steps : List (Step L)) (st : Step L) : Option (List (Step L)) :=
+  match st with
+  | .call _ _ | .star | .starstar => if root == "A" then none else some (steps ++ [st])
+  | _ => some (steps ++ [st])
+
+/-- one iteration of the loop over the remaining parts in `Path.__init__` -/
+def pathStep {L} (acc : String × List (Step L)) (part : Part L) : Option (String × List (Step L)) :=
+  match part with
+  | .plain v => (tChild acc.1 acc.2 (.seg v)).map (fun s => (acc.1, s))
+  | .texpr r s | .path r s =>
+    if r != "T" then none             -- 'path segment must be path from T'
+    else (s.foldlM (fun steps st => tChild acc.1 steps st) acc.2).map (fun s' => (acc.1, s'))
+
+/-- `Path(*parts).path_t.__ops__`; `none` is the ValueError / BadSpec -/
+def pathInit {L} (parts : List (Part L)) : Option (String × List (Step L)) :=
+  match parts with
+  | [] => some ("T", [])
+  | .texpr r s :: others => others.foldlM pathStep (r, s)   -- isinstance(path_parts[0], TType): offset = 1
+  | .path r s :: others => others.foldlM pathStep (r, s)    -- a Path first part stands for its path_t
+  | parts => parts.foldlM pathStep ("T", [])
+
+/-- what `Path.__init__` sees in one evaluated argument -/
+def partOfArg {L} : Arg L → Part L
+  | .t r s => .texpr r s
+  | .path r s => .path r s
+  | a => .plain a
+
+def pathOfParts {L} (parts : Option (List (Arg L))) : Option (Arg L) :=
+  match parts with
+  | some parts => (pathInit (parts.map partOfArg)).map (fun rs => Arg.path rs.1 rs.2)
+  | none => none
 
 /-! ### `eval(repr(x))`: the parser -/
 
@@ -267,7 +519,7 @@ def allSome {α} : List (Option α) → Option (List α)
     | some l => some (a :: l)
     | none => none
 
-/-- Python's rule for a subscript / argument list: one trailing comma is allowed -/
+/-- Python's rule for a subscript / argument list / display: one trailing comma is allowed -/
 def dropTrailingEmpty {α} (pieces : List (List α)) : List (List α) :=
   match pieces.getLast? with
   | some [] => pieces.dropLast
@@ -297,6 +549,17 @@ def callOf {L} (ps : Option (List (Option String × Arg L))) : Option (Step L) :
   match ps with
   | some ps => (splitCallArgs ps).map (fun ak => Step.call ak.1 ak.2)
   | none => none
+
+def pairOpt {α β} (a : Option α) (b : Option β) : Option (α × β) :=
+  match a, b with
+  | some x, some y => some (x, y)
+  | _, _ => none
+
+/-- `slice(a, b, c)` -/
+def sliceOfArgs {L} (xs : Option (List (Arg L))) : Option (Arg L) :=
+  match xs with
+  | some [a, b, c] => some (.sliceObj a b c)
+  | _ => none
 
 /-! termination of the parser: the pieces of a split are no bigger than the whole -/
 
@@ -365,16 +628,59 @@ macro "parse_dec" : tactic => `(tactic| (
   | done
   | omega
   | (simp [Prod.lex_def] <;> omega)
+  | (subst_vars; simp [Prod.lex_def] <;> omega)
   | (have := piece_sizeOf _ _ ‹_ ∈ dropTrailingEmpty _›; have := stripKw_sizeOf ‹List (Tok _)›;
-     simp [Prod.lex_def] <;> omega)))
+     simp [Prod.lex_def] <;> omega)
+  | (have := piece_sizeOf _ _ ‹_ ∈ dropTrailingEmpty _›; simp [Prod.lex_def] <;> omega)))
 
 mutual
-  /-- an expression: a literal token, or a root followed by steps -/
+  /-- an expression: a scalar token, a root followed by steps, a display, or one of the calls
+      `set()`, `frozenset(…)`, `slice(a, b, c)`, `Path(part, …)` -/
   def parseArg {L} : List (Tok L) → Option (Arg L)
     | [.lit v] => some (.lit v)
     | .root r :: rest => (parseSteps rest).map (Arg.t r)
+    | [.par ch] =>
+      if ch.isEmpty then some (.seq .tuple [])
+      else if (splitOn Tok.isComma ch).length == 1 then parseArg ch     -- a parenthesised expression
+      else (parseElems ch).map (Arg.seq .tuple)
+    | [.br ch] => (parseElems ch).map (Arg.seq .list)
+    | [.brace ch] =>
+      if ch.isEmpty then some (.dict [])
+      else if ch.any Tok.isColon then (parseEntries ch).map Arg.dict
+      else (parseElems ch).map (Arg.seq .set)
+    | [.name n, .par ch] =>
+      if n == "Path" then
+        (if ch.isEmpty then some (.path "T" []) else pathOfParts (parseElems ch))
+      else if n == "slice" then sliceOfArgs (parseElems ch)
+      else if n == "set" then (if ch.isEmpty then some (.seq .set []) else none)
+      else if n == "frozenset" then
+        match _h : ch with
+        | [] => some (.seq .frozenset [])
+        | [.brace ch2] => (parseElems ch2).map (Arg.seq .frozenset)
+        | _ => none
+      else none
     | _ => none
   termination_by toks => (sizeOf toks, 1)
+  decreasing_by all_goals parse_dec
+  /-- the elements of a display / the arguments of a call without keywords -/
+  def parseElems {L} (toks : List (Tok L)) : Option (List (Arg L)) :=
+    allSome ((dropTrailingEmpty (splitOn Tok.isComma toks)).attach.map (fun ⟨p, _hp⟩ => parseArg p))
+  termination_by (sizeOf toks, 3)
+  decreasing_by all_goals parse_dec
+  /-- `key: value` -/
+  def parseEntry {L} (toks : List (Tok L)) : Option (Arg L × Arg L) :=
+    match h : splitOn Tok.isColon toks with
+    | [k, v] =>
+      have hk : sizeOf k ≤ sizeOf toks := splitOn_sizeOf _ _ k (by rw [h]; simp)
+      have hv : sizeOf v ≤ sizeOf toks := splitOn_sizeOf _ _ v (by rw [h]; simp)
+      pairOpt (parseArg k) (parseArg v)
+    | _ => none
+  termination_by (sizeOf toks, 2)
+  decreasing_by all_goals parse_dec
+  /-- the entries of a dict display -/
+  def parseEntries {L} (toks : List (Tok L)) : Option (List (Arg L × Arg L)) :=
+    allSome ((dropTrailingEmpty (splitOn Tok.isComma toks)).attach.map (fun ⟨p, _hp⟩ => parseEntry p))
+  termination_by (sizeOf toks, 3)
   decreasing_by all_goals parse_dec
   /-- `a`, `a:b`, `a:b:c` with empty parts for `None` -/
   def parseItem {L} (toks : List (Tok L)) : Option (Item L) :=
@@ -397,7 +703,7 @@ mutual
     | _ => none
   termination_by (sizeOf toks, 2)
   decreasing_by all_goals parse_dec
-  /-- the inside of `[ … ]` -/
+  /-- the inside of `[ … ]` after an expression -/
   def parseIndex {L} (toks : List (Tok L)) : Option (Step L) :=
     if isUnitTok toks then some (.items [])
     else
@@ -435,54 +741,11 @@ mutual
   decreasing_by all_goals parse_dec
 end
 
-/-! ### `Path.__init__` -/
-
-/-- a positional argument of `Path(…)` -/
-inductive Part (L : Type) where
-  | plain (v : L)                                  -- anything else: one `'P'` step
-  | texpr (root : String) (steps : List (Step L))  -- a TType
-  | path (root : String) (steps : List (Step L))   -- a Path: its path_t is used
-
-/-- `_t_child(parent, op, arg)`: `none` is the BadSpec for a call / wildcard on an `A` path -/
-def tChild {L} (root : String) (steps : List (Step L)) (st : Step L) : Option (List (Step L)) :=
-  match st with
-  | .call _ _ | .star | .starstar => if root == "A" then none else some (steps ++ [st])
-  | _ => some (steps ++ [st])
-
-/-- one iteration of the loop over the remaining parts in `Path.__init__` -/
-def pathStep {L} (acc : String × List (Step L)) (part : Part L) : Option (String × List (Step L)) :=
-  match part with
-  | .plain v => (tChild acc.1 acc.2 (.seg v)).map (fun s => (acc.1, s))
-  | .texpr r s | .path r s =>
-    if r != "T" then none             -- 'path segment must be path from T'
-    else (s.foldlM (fun steps st => tChild acc.1 steps st) acc.2).map (fun s' => (acc.1, s'))
-
-/-- `Path(*parts).path_t.__ops__`; `none` is the ValueError / BadSpec -/
-def pathInit {L} (parts : List (Part L)) : Option (String × List (Step L)) :=
-  match parts with
-  | [] => some ("T", [])
-  | .texpr r s :: others => others.foldlM pathStep (r, s)   -- isinstance(path_parts[0], TType): offset = 1
-  | .path r s :: others => others.foldlM pathStep (r, s)    -- a Path first part stands for its path_t
-  | parts => parts.foldlM pathStep ("T", [])
-
-/-- one positional argument of `Path( … )`: a literal, or a T expression -/
-def parsePart {L} (p : List (Tok L)) : Option (Part L) :=
-  match p with
-  | [.lit v] => some (Part.plain v)
-  | .root r :: rest => (parseSteps rest).map (Part.texpr r)
-  | _ => none
-
-def objOfParts {L} (parts : Option (List (Part L))) : Option (Obj L) :=
-  match parts with
-  | some parts => (pathInit parts).map (fun rs => Obj.pobj rs.1 rs.2)
-  | none => none
-
-/-- the whole text — `eval(repr)`: a T expression, or `Path( … )` -/
-def parseObj {L} : List (Tok L) → Option (Obj L)
-  | .root r :: rest => (parseSteps rest).map (Obj.tobj r)
-  | [.name "Path", .par ch] =>
-    if ch.isEmpty then some (.pobj "T" [])
-    else objOfParts (allSome ((dropTrailingEmpty (splitOn Tok.isComma ch)).map parsePart))
+/-- the whole text — `eval(repr)`: a T expression, or a Path -/
+def parseObj {L} (toks : List (Tok L)) : Option (Obj L) :=
+  match parseArg toks with
+  | some (.t r s) => some (.tobj r s)
+  | some (.path r s) => some (.pobj r s)
   | _ => none
 
 /-! ### pickling -/
